@@ -660,3 +660,920 @@ theorem pool_chain (W : World) (p : Pool) (P : Sent → Sent → Prop)
       · rw [hu', hloc]
 
 end U3.Manager
+
+namespace U3.Manager
+open U3 U3.Headers U3.Retry
+
+/-! ## induction principles that follow the two loops -/
+
+theorem pool_induct (W : World) (p : Pool) (redirect ash : Bool)
+    (M : Str → Str → Option Bytes → Option Hdrs → Arg → Run → Prop)
+    (h0 : ∀ method url body headers retries, M method url body headers retries ⟨[], .outOfFuel⟩)
+    (hdone : ∀ method url body headers retries R,
+      poolStep W p method url body headers retries redirect ash = .done R →
+      M method url body headers retries R)
+    (hnext : ∀ method url body headers retries s m' u' b' h' r' R',
+      poolStep W p method url body headers retries redirect ash = .next s m' u' b' h' r' →
+      M m' u' b' (some h') (.retry r') R' → M method url body headers retries (R'.cons s)) :
+    ∀ fuel method url body headers retries,
+      M method url body headers retries
+        (poolUrlopen W p fuel method url body headers retries redirect ash) := by
+  intro fuel
+  induction fuel with
+  | zero => intros; exact h0 _ _ _ _ _
+  | succ n ih =>
+    intro method url body headers retries
+    simp only [poolUrlopen]
+    split
+    · rename_i R hR; exact hdone _ _ _ _ _ R hR
+    · rename_i s m' u' b' h' r' hstep
+      exact hnext _ _ _ _ _ s m' u' b' h' r' _ hstep (ih m' u' b' (some h') (.retry r'))
+
+theorem mgr_induct (W : World) (m : Mgr) (redirect : Bool)
+    (M : Str → Str → Kw → Run → Prop)
+    (h0 : ∀ method url kw, M method url kw ⟨[], .outOfFuel⟩)
+    (hdone : ∀ method url kw R, mgrStep W m method url redirect kw = .done R → M method url kw R)
+    (hnext : ∀ method url kw log m' u' kw' R',
+      mgrStep W m method url redirect kw = .next log m' u' kw' →
+      M m' u' kw' R' → M method url kw (R'.append log)) :
+    ∀ fuel method url kw, M method url kw (mgrUrlopen W m fuel method url redirect kw) := by
+  intro fuel
+  induction fuel with
+  | zero => intros; exact h0 _ _ _
+  | succ n ih =>
+    intro method url kw
+    simp only [mgrUrlopen]
+    split
+    · rename_i R hR; exact hdone _ _ _ R hR
+    · rename_i log m' u' kw' hstep
+      exact hnext _ _ _ log m' u' kw' _ hstep (ih m' u' kw')
+
+/-! ## how a pass that does not recurse ends -/
+
+/-- the three ways a request that was sent is *not* followed -/
+def EndsWith (R : Run) (s : Sent) (redirect : Bool) (r : Retry) : Prop :=
+  R.outcome = .statusRetry ∨ R.outcome = .oracleMissing ∨
+  (R.outcome = .response s.reply ∧ (redirect = false ∨ s.reply.redirectLocation = none)) ∨
+  (redirect = true ∧ s.reply.redirectLocation.isSome = true ∧
+    (∃ m' c, r.increment (some m') (.redirect s.reply.status) = .error (.maxRetry c)) ∧
+    R.outcome = (if r.raiseOnRedirect then .maxRetry else .response s.reply))
+
+theorem poolStep_done_shape {W : World} {p : Pool} {method url : Str} {body : Option Bytes}
+    {headers : Option Hdrs} {retries : Arg} {redirect ash : Bool} {R : Run}
+    (h : poolStep W p method url body headers retries redirect ash = .done R) :
+    (∃ o, poolAttempt W p method url body headers retries redirect ash = .error o ∧ R = ⟨[], o⟩) ∨
+    (∃ s hs, poolAttempt W p method url body headers retries redirect ash
+        = .ok (s, deriveRetry retries redirect p.retries, hs) ∧ R.log = [s] ∧
+      EndsWith R s redirect (deriveRetry retries redirect p.retries)) := by
+  unfold poolStep at h
+  split at h
+  · rename_i o ho
+    left; refine ⟨o, ho, ?_⟩; injection h with h; exact h.symm
+  · rename_i sent r hs hpa
+    have hr := (poolAttempt_ok hpa).1
+    subst hr
+    right
+    refine ⟨sent, hs, hpa, ?_⟩
+    split at h
+    · rename_i loc hloc
+      have hred : redirect = true ∧ sent.reply.redirectLocation = some loc := by
+        cases redirect <;> simp_all
+      dsimp only at h
+      split at h
+      · rename_i c hinc
+        injection h with h
+        subst h
+        refine ⟨by unfold onExhausted; split <;> rfl, Or.inr (Or.inr (Or.inr ⟨hred.1, by rw [hred.2]; rfl, ⟨_, c, hinc⟩, ?_⟩))⟩
+        unfold onExhausted; split <;> rfl
+      · rename_i e hinc
+        obtain ⟨c, hc⟩ := increment_redirect_err hinc
+        cases hc
+      · cases h
+    · rename_i hloc
+      injection h with h
+      subst h
+      refine ⟨notFollowed_log _ _ _, ?_⟩
+      unfold notFollowed
+      split
+      · exact Or.inl rfl
+      · refine Or.inr (Or.inr (Or.inl ⟨rfl, ?_⟩))
+        cases redirect
+        · exact Or.inl rfl
+        · right
+          simpa using hloc
+
+theorem poolAttempt_error {W : World} {p : Pool} {method url : Str} {body : Option Bytes}
+    {headers : Option Hdrs} {retries : Arg} {redirect ash : Bool} {o : Outcome}
+    (h : poolAttempt W p method url body headers retries redirect ash = .error o) :
+    (o = .oracleMissing ∧ W.parse url = none) ∨
+    (o = .hostChanged ∧ ash = true ∧ ∃ pu, W.parse url = some pu ∧ isSameHost p.id url pu = false) := by
+  unfold poolAttempt at h
+  split at h
+  · rename_i hp; injection h with h; exact Or.inl ⟨h.symm, hp⟩
+  · rename_i pu hpu
+    split at h
+    · rename_i hc
+      injection h with h
+      refine Or.inr ⟨h.symm, ?_, pu, hpu, ?_⟩ <;> cases ash <;> simp_all
+    · cases h
+
+end U3.Manager
+
+namespace U3.Manager
+open U3 U3.Headers U3.Retry
+
+/-! ## one pass of the manager, revisited: the request it sends and how it ends -/
+
+/-- the request one pass of `PoolManager.urlopen` puts on the wire -/
+def MgrPass (W : World) (m : Mgr) (method url : Str) (kw : Kw) (s : Sent) : Prop :=
+  ∃ u conn s0 r0 hs, W.parse url = some u ∧ connectionFromHost m u.host u.port u.scheme = .ok conn ∧
+    poolAttempt W conn method (mgrTarget m u url) kw.body (some (mgrHeaders m u kw)) kw.retries false false
+      = .ok (s0, r0, hs) ∧ s = { s0 with url := url }
+
+theorem MgrNext.pass {W : World} {m : Mgr} {method url : Str} {redirect : Bool} {kw : Kw}
+    {log : List Sent} {m' u' : Str} {kw' : Kw} (N : MgrNext W m method url redirect kw log m' u' kw') :
+    MgrPass W m method url kw { N.s with url := url } :=
+  ⟨N.u, N.conn, N.s, N.r0, N.hs, N.parse, N.connOk, N.attempt, rfl⟩
+
+theorem pmConnectionFromHost_error {m : Mgr} {host : Option Str} {port : Option Nat} {scheme : Option Str}
+    {o : Outcome} (h : pmConnectionFromHost m host port scheme = .error o) :
+    o = .locationValue ∨ o = .schemeUnknown := by
+  unfold pmConnectionFromHost at h
+  split at h
+  · injection h with h; exact Or.inl h.symm
+  · dsimp only at h
+    repeat' split at h
+    all_goals first | (injection h with h; exact Or.inr h.symm) | cases h
+
+theorem connectionFromHost_error {m : Mgr} {host : Option Str} {port : Option Nat} {scheme : Option Str}
+    {o : Outcome} (h : connectionFromHost m host port scheme = .error o) :
+    o = .locationValue ∨ o = .schemeUnknown := by
+  unfold connectionFromHost at h
+  split at h
+  · exact pmConnectionFromHost_error h
+  · split at h <;> exact pmConnectionFromHost_error h
+
+theorem mgrSend_shape2 (W : World) (m : Mgr) (conn : Pool) (u : PUrl) (method url : Str) (kw : Kw) :
+    (∃ o, mgrSend W m conn u method url kw = ⟨[], o⟩ ∧ (o = .oracleMissing ∨ o = .hostChanged)) ∨
+    (∃ s r hs, poolAttempt W conn method (mgrTarget m u url) kw.body (some (kw.headers.getD m.headers))
+          kw.retries false false = .ok (s, r, hs) ∧
+        (mgrSend W m conn u method url kw).log = [{ s with url := url }] ∧
+        ((mgrSend W m conn u method url kw).outcome = .response s.reply ∨
+         (mgrSend W m conn u method url kw).outcome = .statusRetry)) := by
+  unfold mgrSend
+  rcases poolOnce_shape W conn method (mgrTarget m u url) kw.body (some (kw.headers.getD m.headers))
+      kw.retries false with ⟨o, ho, hR⟩ | ⟨s, r, hs, hpa, hR⟩
+  · left
+    refine ⟨o, ?_, ?_⟩
+    · simp only [mgrTarget] at hR
+      simp only [hR, Run.withUrl, List.map_nil]
+    · rcases poolAttempt_error ho with h | h
+      · exact Or.inl h.1
+      · exact Or.inr h.1
+  · right
+    refine ⟨s, r, hs, hpa, ?_, ?_⟩
+    · simp only [mgrTarget] at hR
+      simp only [hR, Run.withUrl, notFollowed_log, List.map_cons, List.map_nil]
+    · simp only [mgrTarget] at hR
+      simp only [hR, Run.withUrl_outcome]
+      exact notFollowed_outcome r method s
+
+theorem mgrRedirect_done {W : World} {conn : Pool} {method url : Str} {redirect : Bool} {headers : Hdrs}
+    {kw : Kw} {first : Run} {reply : Reply} {loc : Str} {R : Run}
+    (h : mgrRedirect W conn method url redirect headers kw first reply loc = .done R) :
+    R.log = first.log ∧
+    (R.outcome = .oracleMissing ∨
+      ((∃ m' c, (deriveRetry kw.retries redirect .none).increment (some m') (.redirect reply.status)
+          = .error (.maxRetry c)) ∧
+        R.outcome = (if (deriveRetry kw.retries redirect .none).raiseOnRedirect then .maxRetry
+          else first.outcome))) := by
+  unfold mgrRedirect at h
+  split at h
+  · injection h with h; subst h; exact ⟨rfl, Or.inl rfl⟩
+  · dsimp only at h
+    split at h
+    · injection h with h; subst h; exact ⟨rfl, Or.inl rfl⟩
+    · split at h
+      · rename_i c hinc
+        injection h with h; subst h
+        refine ⟨by unfold onExhausted; split <;> rfl, Or.inr ⟨⟨_, c, hinc⟩, ?_⟩⟩
+        unfold onExhausted; split <;> rfl
+      · rename_i e hinc
+        obtain ⟨c, hc⟩ := increment_redirect_err hinc
+        cases hc
+      · cases h
+
+theorem mgrStep_done_shape {W : World} {m : Mgr} {method url : Str} {redirect : Bool} {kw : Kw} {R : Run}
+    (h : mgrStep W m method url redirect kw = .done R) :
+    (R.log = [] ∧ (∀ r, R.outcome ≠ .response r) ∧ R.outcome ≠ .maxRetry ∧ R.outcome ≠ .statusRetry) ∨
+    (∃ s, MgrPass W m method url kw s ∧ R.log = [s] ∧
+      EndsWith R s redirect (deriveRetry kw.retries redirect .none)) := by
+  unfold mgrStep at h
+  split at h
+  · injection h with h; subst h
+    exact Or.inl ⟨rfl, by simp, by simp, by simp⟩
+  · rename_i u hu
+    dsimp only at h
+    split at h
+    · rename_i o ho
+      injection h with h; subst h
+      rcases connectionFromHost_error ho with ho | ho <;> subst ho <;>
+        exact Or.inl ⟨rfl, by simp, by simp, by simp⟩
+    · rename_i conn hconn
+      rcases mgrSend_shape2 W m conn u method url (proxyKw m u kw) with ⟨o, hR, ho⟩ | ⟨s, r0, hs0, hpa, hl, ho⟩
+      · rw [hR] at h
+        rcases ho with ho | ho <;> subst ho <;> simp only at h <;> injection h with h <;> subst h <;>
+          exact Or.inl ⟨rfl, by simp, by simp, by simp⟩
+      · right
+        simp only [proxyKw_body, proxyKw_retries] at hpa
+        have hpass : MgrPass W m method url kw { s with url := url } :=
+          ⟨u, conn, s, r0, hs0, hu, hconn, hpa, rfl⟩
+        refine ⟨_, hpass, ?_⟩
+        split at h
+        · rename_i reply hout
+          have hrep : reply = s.reply := by
+            rcases ho with ho | ho
+            · rw [ho] at hout; injection hout with h; exact h.symm
+            · rw [ho] at hout; cases hout
+          subst hrep
+          split at h
+          · rename_i hloc
+            injection h with h; subst h
+            refine ⟨hl, Or.inr (Or.inr (Or.inl ⟨hout, ?_⟩))⟩
+            cases redirect
+            · exact Or.inl rfl
+            · right; simpa using hloc
+          · rename_i loc hloc
+            have hred : redirect = true ∧ s.reply.redirectLocation = some loc := by
+              cases redirect <;> simp_all
+            obtain ⟨hlog, hcase⟩ := mgrRedirect_done h
+            refine ⟨by rw [hlog, hl], ?_⟩
+            rcases hcase with hc | ⟨hinc, hc⟩
+            · exact Or.inr (Or.inl hc)
+            · simp only [proxyKw_retries] at hinc hc
+              refine Or.inr (Or.inr (Or.inr ⟨hred.1, by rw [hred.2]; rfl, hinc, ?_⟩))
+              rw [hc, hout]
+        · rename_i hno
+          injection h with h; subst h
+          refine ⟨hl, ?_⟩
+          rcases ho with ho | ho
+          · exact absurd ho (hno s.reply)
+          · exact Or.inl ho
+
+/-- the first request of a manager-level run is the one of its first pass -/
+theorem mgr_head (W : World) (m : Mgr) (redirect : Bool) (fuel : Nat) (method url : Str) (kw : Kw) (s : Sent)
+    (h : (mgrUrlopen W m fuel method url redirect kw).log.head? = some s) : MgrPass W m method url kw s := by
+  cases fuel with
+  | zero => simp [mgrUrlopen] at h
+  | succ n =>
+    simp only [mgrUrlopen] at h
+    split at h
+    · rename_i R hR
+      rcases mgrStep_done_shape hR with ⟨hl, _⟩ | ⟨s', hp, hl, _⟩
+      · rw [hl] at h; cases h
+      · rw [hl] at h; simp at h; subst h; exact hp
+    · rename_i log m' u' kw' hstep
+      obtain ⟨N⟩ := mgrStep_next hstep
+      rw [Run.append_log, N.log_eq] at h
+      simp at h; subst h; exact N.pass
+
+/-- **per-hop facts of the manager's redirect branch**: `I` is an invariant of the arguments the
+recursion threads through, `P` is established between each request and its follow-up -/
+theorem mgr_chain (W : World) (m : Mgr) (redirect : Bool) (I : Str → Str → Kw → Prop)
+    (P : Sent → Sent → Prop)
+    (hI : ∀ {method url kw log m' u' kw'}, I method url kw →
+      MgrNext W m method url redirect kw log m' u' kw' → I m' u' kw')
+    (hP : ∀ {method url kw log m' u' kw'} (N : MgrNext W m method url redirect kw log m' u' kw') (b : Sent),
+      I method url kw → MgrPass W m m' u' kw' b → P { N.s with url := url } b) :
+    ∀ (fuel : Nat) (method url : Str) (kw : Kw), I method url kw →
+      Chain2 P (mgrUrlopen W m fuel method url redirect kw).log := by
+  intro fuel
+  induction fuel with
+  | zero => intros; simp [mgrUrlopen, Chain2]
+  | succ n ih =>
+    intro method url kw hi
+    simp only [mgrUrlopen]
+    split
+    · rename_i R hR
+      have := mgrStep_done_len hR
+      match hl : R.log with
+      | [] => trivial
+      | [_] => trivial
+      | _ :: _ :: _ => rw [hl] at this; simp at this
+    · rename_i log m' u' kw' hstep
+      obtain ⟨N⟩ := mgrStep_next hstep
+      rw [Run.append_log, N.log_eq]
+      refine Chain2.cons_of_head (ih m' u' kw' (hI hi N)) ?_
+      intro s' hs'
+      exact hP N s' hi (mgr_head W m redirect n m' u' kw' s' hs')
+
+/-- a fact about every request of a manager-level run -/
+theorem mgr_all (W : World) (m : Mgr) (redirect : Bool) (I : Str → Str → Kw → Prop) (Q : Sent → Prop)
+    (hI : ∀ {method url kw log m' u' kw'}, I method url kw →
+      MgrNext W m method url redirect kw log m' u' kw' → I m' u' kw')
+    (hQ : ∀ {method url kw s}, I method url kw → MgrPass W m method url kw s → Q s) :
+    ∀ (fuel : Nat) (method url : Str) (kw : Kw), I method url kw →
+      ∀ s ∈ (mgrUrlopen W m fuel method url redirect kw).log, Q s := by
+  intro fuel
+  induction fuel with
+  | zero => intros _ _ _ _ s hs; simp [mgrUrlopen] at hs
+  | succ n ih =>
+    intro method url kw hi s hs
+    simp only [mgrUrlopen] at hs
+    split at hs
+    · rename_i R hR
+      rcases mgrStep_done_shape hR with ⟨hl, _⟩ | ⟨s', hp, hl, _⟩
+      · rw [hl] at hs; cases hs
+      · rw [hl] at hs; simp at hs; subst hs; exact hQ hi hp
+    · rename_i log m' u' kw' hstep
+      obtain ⟨N⟩ := mgrStep_next hstep
+      rw [Run.append_log, N.log_eq] at hs
+      simp only [List.cons_append, List.nil_append, List.mem_cons] at hs
+      rcases hs with hs | hs
+      · subst hs; exact hQ hi N.pass
+      · exact ih m' u' kw' (hI hi N) s hs
+
+/-- **once a hop has the property `X`, every later request has `Q`**: `X` at a hop establishes the
+invariant `J` of the follow-up's arguments, `J` is preserved and implies `Q` of the request sent -/
+theorem mgr_after (W : World) (m : Mgr) (redirect : Bool) (I J : Str → Str → Kw → Prop)
+    (X : Sent → Sent → Prop) (Q : Sent → Prop)
+    (hI : ∀ {method url kw log m' u' kw'}, I method url kw →
+      MgrNext W m method url redirect kw log m' u' kw' → I m' u' kw')
+    (hJ : ∀ {method url kw log m' u' kw'}, J method url kw →
+      MgrNext W m method url redirect kw log m' u' kw' → J m' u' kw')
+    (hX : ∀ {method url kw log m' u' kw'} (N : MgrNext W m method url redirect kw log m' u' kw') (b : Sent),
+      I method url kw → MgrPass W m m' u' kw' b → X { N.s with url := url } b → J m' u' kw')
+    (hQ : ∀ {method url kw s}, J method url kw → MgrPass W m method url kw s → Q s) :
+    ∀ (fuel : Nat) (method url : Str) (kw : Kw), I method url kw →
+      ∀ (i j : Nat) (a b c : Sent), i < j →
+        (mgrUrlopen W m fuel method url redirect kw).log[i]? = some a →
+        (mgrUrlopen W m fuel method url redirect kw).log[i + 1]? = some b → X a b →
+        (mgrUrlopen W m fuel method url redirect kw).log[j]? = some c → Q c := by
+  intro fuel
+  induction fuel with
+  | zero => intros _ _ _ _ i j a b c _ ha; simp [mgrUrlopen] at ha
+  | succ n ih =>
+    intro method url kw hi i j a b c hij ha hb hx hc
+    cases hstep : mgrStep W m method url redirect kw with
+    | done R =>
+      simp only [mgrUrlopen, hstep] at ha hb hc
+      have := mgrStep_done_len hstep
+      have hlt : i + 1 < R.log.length := by
+        rcases Nat.lt_or_ge (i + 1) R.log.length with h | h
+        · exact h
+        · rw [List.getElem?_eq_none h] at hb; cases hb
+      omega
+    | next log m' u' kw' =>
+      simp only [mgrUrlopen, hstep] at ha hb hc
+      obtain ⟨N⟩ := mgrStep_next hstep
+      rw [Run.append_log, N.log_eq] at ha hb hc
+      simp only [List.cons_append, List.nil_append] at ha hb hc
+      cases j with
+      | zero => omega
+      | succ j' =>
+        simp only [List.getElem?_cons_succ] at hb hc
+        cases i with
+        | zero =>
+          simp only [List.getElem?_cons_zero, Option.some.injEq] at ha
+          subst ha
+          have hbh : (mgrUrlopen W m n m' u' redirect kw').log.head? = some b := by
+            rw [List.head?_eq_getElem?]; exact hb
+          have hpb := mgr_head W m redirect n m' u' kw' b hbh
+          have hj := hX N b hi hpb hx
+          exact mgr_all W m redirect J Q hJ hQ n m' u' kw' hj c (List.mem_of_getElem? hc)
+        | succ i' =>
+          simp only [List.getElem?_cons_succ] at ha
+          exact ih m' u' kw' (hI hi N) i' j' a b c (by omega) ha hb hx hc
+
+end U3.Manager
+
+namespace U3.Manager
+open U3 U3.Headers U3.Retry
+
+/-! ## redirects disabled / exhausted -/
+
+/-- a counter that pays for no further redirect makes `increment` raise `MaxRetryError` -/
+theorem increment_redirect_zero {r : Retry} {m : Option Str} {st : Nat}
+    (h : r.redirect.budget = some 0 ∨ r.total.budget = some 0) :
+    ∃ c, r.increment m (.redirect st) = .error (.maxRetry c) := by
+  cases hinc : r.increment m (.redirect st) with
+  | error e => obtain ⟨c, hc⟩ := increment_redirect_err hinc; exact ⟨c, by rw [hc]⟩
+  | ok r' =>
+    rcases h with h | h
+    · obtain ⟨b', _, hle⟩ := redirect_budget_step hinc h; omega
+    · obtain ⟨b', _, hle⟩ := total_budget_step hinc h; omega
+
+/-- what `Retry.__init__` does with `redirect=False` / `total=False` -/
+theorem init_disabled (p : Retry) (h : p.redirect = .disabled ∨ p.total = .disabled) :
+    (Retry.init p).redirect.budget = some 0 ∧ (Retry.init p).raiseOnRedirect = false := by
+  unfold Retry.init
+  simp only [h, if_true]
+  exact ⟨rfl, trivial⟩
+
+/-- `retries=False` (per request, or as the pool's default) -/
+theorem fromInt_false (redirect : Bool) (d : Arg) :
+    (Retry.fromInt .false redirect d).redirect.budget = some 0 ∧
+    (Retry.fromInt .false redirect d).raiseOnRedirect = false := by
+  unfold Retry.fromInt Retry.ofTotal
+  exact init_disabled _ (Or.inr rfl)
+
+/-- the policy in force does not change `raise_on_redirect` along the chain, and no pass after the
+first one has budget left when the first one had none: pool level -/
+theorem pool_disabled (W : World) (p : Pool) (fuel : Nat) (method url : Str) (body : Option Bytes)
+    (headers : Option Hdrs) (retries : Arg) (redirect ash : Bool)
+    (h : redirect = false ∨
+      ((deriveRetry retries redirect p.retries).redirect.budget = some 0 ∨
+       (deriveRetry retries redirect p.retries).total.budget = some 0)) :
+    (poolUrlopen W p fuel method url body headers retries redirect ash).log = [] ∨
+    ∃ s, (poolUrlopen W p fuel method url body headers retries redirect ash).log = [s] ∧
+      s.url = url ∧ s.method = method ∧ s.body = body ∧
+      EndsWith (poolUrlopen W p fuel method url body headers retries redirect ash) s redirect
+        (deriveRetry retries redirect p.retries) := by
+  cases fuel with
+  | zero => left; rfl
+  | succ n =>
+    simp only [poolUrlopen]
+    cases hstep : poolStep W p method url body headers retries redirect ash with
+    | done R =>
+      simp only
+      rcases poolStep_done_shape hstep with ⟨o, _, hR⟩ | ⟨s, hs, hpa, hl, he⟩
+      · left; rw [hR]
+      · right
+        obtain ⟨_, hm, hb, hu, _⟩ := poolAttempt_ok hpa
+        exact ⟨s, hl, hu, hm, hb, he⟩
+    | next s m' u' b' h' r' =>
+      obtain ⟨hs, _, hred, _, _, hinc⟩ := poolStep_next hstep
+      rcases h with h | h
+      · rw [h] at hred; cases hred
+      · obtain ⟨c, hc⟩ := increment_redirect_zero (m := some m') (st := s.reply.status) h
+        rw [hc] at hinc; cases hinc
+
+theorem mgr_disabled (W : World) (m : Mgr) (fuel : Nat) (method url : Str) (redirect : Bool) (kw : Kw)
+    (h : redirect = false ∨
+      ((deriveRetry kw.retries redirect .none).redirect.budget = some 0 ∨
+       (deriveRetry kw.retries redirect .none).total.budget = some 0)) :
+    (mgrUrlopen W m fuel method url redirect kw).log = [] ∨
+    ∃ s, (mgrUrlopen W m fuel method url redirect kw).log = [s] ∧ MgrPass W m method url kw s ∧
+      EndsWith (mgrUrlopen W m fuel method url redirect kw) s redirect
+        (deriveRetry kw.retries redirect .none) := by
+  cases fuel with
+  | zero => left; rfl
+  | succ n =>
+    simp only [mgrUrlopen]
+    cases hstep : mgrStep W m method url redirect kw with
+    | done R =>
+      simp only
+      rcases mgrStep_done_shape hstep with ⟨hl, _⟩ | ⟨s, hp, hl, he⟩
+      · left; exact hl
+      · right; exact ⟨s, hl, hp, he⟩
+    | next log m' u' kw' =>
+      obtain ⟨N⟩ := mgrStep_next hstep
+      rcases h with h | h
+      · have := N.redirect_on; rw [h] at this; cases this
+      · obtain ⟨c, hc⟩ := increment_redirect_zero (m := some m') (st := N.s.reply.status) h
+        have := N.incr
+        rw [hc] at this; cases this
+
+theorem MgrPass.facts {W : World} {m : Mgr} {method url : Str} {kw : Kw} {s : Sent}
+    (h : MgrPass W m method url kw s) : s.url = url ∧ s.method = method ∧ s.body = kw.body := by
+  obtain ⟨u, conn, s0, r0, hs, _, _, hpa, hs0⟩ := h
+  obtain ⟨_, hm, hb, _, _⟩ := poolAttempt_ok hpa
+  subst hs0
+  exact ⟨rfl, hm, hb⟩
+
+end U3.Manager
+
+namespace U3.Manager
+open U3 U3.Headers U3.Retry
+
+/-! ## the exhaustion surface: exact accounting of the counters along the chain -/
+
+/-- none of the counters a redirect does not touch is negative (a `Retry` built with a negative
+`connect=` / `read=` / `status=` / `other=` is exhausted before anything happened) -/
+def SaneCounters (r : Retry) : Prop :=
+  ∀ n : Int, (r.connect = .num n ∨ r.read = .num n ∨ r.status = .num n ∨ r.other = .num n) → 0 ≤ n
+
+theorem foldl_min_mem (xs : List Int) (x : Int) : xs.foldl min x = x ∨ xs.foldl min x ∈ xs := by
+  induction xs generalizing x with
+  | nil => exact Or.inl rfl
+  | cons y ys ih =>
+    simp only [List.foldl_cons]
+    rcases ih (min x y) with h | h
+    · rw [h]
+      rcases Int.le_total x y with hxy | hxy
+      · left; exact Int.min_eq_left hxy
+      · right; rw [Int.min_eq_right hxy]; exact List.mem_cons_self
+    · right; exact List.mem_cons_of_mem _ h
+
+theorem isExhausted_exists_neg (r : Retry) (h : r.isExhausted = true) :
+    ∃ n : Int, n < 0 ∧ Count.num n ∈ r.counters := by
+  unfold Retry.isExhausted at h
+  split at h
+  · cases h
+  · rename_i x xs hrc
+    simp only [decide_eq_true_eq] at h
+    have hmem : xs.foldl min x ∈ r.retryCounts := by
+      rw [hrc]
+      rcases foldl_min_mem xs x with h' | h'
+      · rw [h']; exact List.mem_cons_self
+      · exact List.mem_cons_of_mem _ h'
+    unfold Retry.retryCounts at hmem
+    rw [List.mem_filterMap] at hmem
+    obtain ⟨c, hc, hcv⟩ := hmem
+    refine ⟨xs.foldl min x, h, ?_⟩
+    cases c with
+    | none => simp at hcv
+    | disabled => simp at hcv
+    | num k =>
+      simp only at hcv
+      split at hcv
+      · injection hcv with hcv; rw [← hcv]; exact hc
+      · cases hcv
+
+/-- the counters a redirect does not touch are copied by a successful `increment` -/
+theorem increment_redirect_others {r r' : Retry} {m : Option Str} {st : Nat}
+    (h : r.increment m (.redirect st) = .ok r') :
+    r'.connect = r.connect ∧ r'.read = r.read ∧ r'.status = r.status ∧ r'.other = r.other := by
+  simp only [Retry.increment, Retry.finish] at h
+  split at h
+  · cases h
+  · injection h with h
+    subst h
+    refine ⟨?_, ?_, ?_, ?_⟩ <;>
+    · simp only [Retry.new, Retry.init]
+      split <;> rfl
+
+theorem Count.dec_neg_budget (c : Count) (n : Int) (h : c.dec = .num n) (hn : n < 0) : c.budget = some 0 := by
+  cases c with
+  | none => simp [Count.dec] at h
+  | disabled => rfl
+  | num k =>
+    simp only [Count.dec, Count.num.injEq] at h
+    simp only [Count.budget, Option.some.injEq]
+    omega
+
+/-- `MaxRetryError` on a redirect is never premature: one of the two counters that pay for redirects
+is used up -/
+theorem increment_redirect_fail {r : Retry} {m : Option Str} {st : Nat} {e : Raise}
+    (hs : SaneCounters r) (h : r.increment m (.redirect st) = .error e) :
+    r.redirect.budget = some 0 ∨ r.total.budget = some 0 := by
+  simp only [Retry.increment, Retry.finish] at h
+  split at h
+  · rename_i hex
+    obtain ⟨n, hn, hmem⟩ := isExhausted_exists_neg _ hex
+    have hcs : ∀ c ∈ (r.new r.total.dec r.connect r.read r.redirect.dec r.status r.other
+        (r.history ++ [⟨Option.none, some st, true⟩])).counters,
+        c = r.total.dec ∨ c = r.connect ∨ c = r.read ∨ c = r.redirect.dec ∨ c = r.status ∨ c = r.other := by
+      intro c hc
+      simp only [Retry.new, Retry.init] at hc
+      split at hc
+      · rename_i hd
+        rcases hd with hd | hd
+        · exact absurd hd (Count.dec_ne_disabled _)
+        · exact absurd hd (Count.dec_ne_disabled _)
+      · simpa [Retry.counters] using hc
+    rcases hcs _ hmem with hc | hc | hc | hc | hc | hc
+    · exact Or.inr (Count.dec_neg_budget _ n hc.symm hn)
+    · have := hs n (Or.inl hc.symm); omega
+    · have := hs n (Or.inr (Or.inl hc.symm)); omega
+    · exact Or.inl (Count.dec_neg_budget _ n hc.symm hn)
+    · have := hs n (Or.inr (Or.inr (Or.inl hc.symm))); omega
+    · have := hs n (Or.inr (Or.inr (Or.inr hc.symm))); omega
+  · cases h
+
+theorem Count.budget_of_dec (c : Count) (b : Nat) (hnn : ∀ n, c.dec = .num n → 0 ≤ n)
+    (h : c.dec.budget = some b) : c.budget = some (b + 1) := by
+  cases c with
+  | none => simp [Count.dec, Count.budget] at h
+  | disabled => have := hnn (-1) rfl; omega
+  | num k =>
+    have := hnn (k - 1) rfl
+    simp only [Count.dec, Count.budget, Option.some.injEq] at h ⊢
+    omega
+
+/-- `rk` is what `n` successful redirect increments made of `r0` -/
+def Descends (r0 rk : Retry) (n : Nat) : Prop :=
+  rk.raiseOnRedirect = r0.raiseOnRedirect ∧
+  (∀ b, rk.redirect.budget = some b → r0.redirect.budget = some (b + n)) ∧
+  (∀ b, rk.total.budget = some b → r0.total.budget = some (b + n)) ∧
+  (SaneCounters r0 → SaneCounters rk)
+
+theorem Descends.refl (r : Retry) : Descends r r 0 :=
+  ⟨rfl, fun _ h => h, fun _ h => h, fun h => h⟩
+
+theorem Descends.step {r r' rk : Retry} {m : Option Str} {st n : Nat}
+    (h : r.increment m (.redirect st) = .ok r') (hd : Descends r' rk n) : Descends r rk (n + 1) := by
+  obtain ⟨hrd, htot, hex, hraise, _⟩ := increment_redirect_ok h
+  obtain ⟨hc, hr, hst, ho⟩ := increment_redirect_others h
+  obtain ⟨d1, d2, d3, d4⟩ := hd
+  have hnn : ∀ (c : Count) (k : Int), c ∈ r'.counters → c = .num k → 0 ≤ k := by
+    intro c k hc hk
+    by_cases hlt : k < 0
+    · have := isExhausted_of_neg r' k hlt (hk ▸ hc)
+      rw [this] at hex; cases hex
+    · omega
+  refine ⟨by rw [d1, hraise], ?_, ?_, ?_⟩
+  · intro b hb
+    have h1 := d2 b hb
+    rw [hrd] at h1
+    have := Count.budget_of_dec r.redirect (b + n)
+      (fun k hk => hnn r'.redirect k (by simp [Retry.counters]) (by rw [hrd, hk])) h1
+    rw [this, Nat.add_assoc]
+  · intro b hb
+    have h1 := d3 b hb
+    rw [htot] at h1
+    have := Count.budget_of_dec r.total (b + n)
+      (fun k hk => hnn r'.total k (by simp [Retry.counters]) (by rw [htot, hk])) h1
+    rw [this, Nat.add_assoc]
+  · intro hs
+    apply d4
+    intro k hk
+    rw [hc, hr, hst, ho] at hk
+    exact hs k hk
+
+/-- how a run ends, seen from its last request -/
+def Surface (R : Run) (redirect : Bool) (r0 : Retry) : Prop :=
+  (R.log = [] → R.outcome ≠ .maxRetry ∧ ∀ x, R.outcome ≠ .response x) ∧
+  (∀ pre s, R.log = pre ++ [s] → (R.outcome = .maxRetry ∨ ∃ x, R.outcome = .response x) →
+    ∃ rk, Descends r0 rk pre.length ∧ EndsWith R s redirect rk)
+
+theorem EndsWith.congr {R R' : Run} {s : Sent} {redirect : Bool} {r : Retry}
+    (h : EndsWith R s redirect r) (ho : R'.outcome = R.outcome) : EndsWith R' s redirect r := by
+  unfold EndsWith at h ⊢
+  rw [ho]; exact h
+
+theorem Surface.cons {R' : Run} {s : Sent} {redirect : Bool} {r r' : Retry} {m : Option Str} {st : Nat}
+    (hinc : r.increment m (.redirect st) = .ok r') (h : Surface R' redirect r') (log : List Sent)
+    (hlog : log = [s]) : Surface (R'.append log) redirect r := by
+  subst hlog
+  obtain ⟨h1, h2⟩ := h
+  constructor
+  · intro hl; simp at hl
+  · intro pre sl hl hout
+    simp only [Run.append_log, List.cons_append, List.nil_append] at hl
+    simp only [Run.append_outcome] at hout
+    cases pre with
+    | nil =>
+      simp only [List.nil_append, List.cons.injEq] at hl
+      have := h1 hl.2
+      rcases hout with ho | ⟨x, ho⟩
+      · exact absurd ho this.1
+      · exact absurd ho (this.2 x)
+    | cons a pre' =>
+      simp only [List.cons_append, List.cons.injEq] at hl
+      obtain ⟨rk, hd, he⟩ := h2 pre' sl hl.2 hout
+      exact ⟨rk, by simpa using Descends.step hinc hd, he.congr rfl⟩
+
+theorem pool_surface (W : World) (p : Pool) (redirect ash : Bool) :
+    ∀ (fuel : Nat) (method url : Str) (body : Option Bytes) (headers : Option Hdrs) (retries : Arg),
+      Surface (poolUrlopen W p fuel method url body headers retries redirect ash) redirect
+        (deriveRetry retries redirect p.retries) := by
+  apply pool_induct W p redirect ash
+    (fun _ _ _ _ retries R => Surface R redirect (deriveRetry retries redirect p.retries))
+  · intro _ _ _ _ _
+    exact ⟨fun _ => ⟨by simp, by simp⟩, fun pre s hl => by simp at hl⟩
+  · intro method url body headers retries R hR
+    rcases poolStep_done_shape hR with ⟨o, ho, hRo⟩ | ⟨s, hs, hpa, hl, he⟩
+    · subst hRo
+      refine ⟨fun _ => ?_, fun pre s hl => by simp at hl⟩
+      rcases poolAttempt_error ho with h | h <;> rw [h.1] <;> exact ⟨by simp, by simp⟩
+    · refine ⟨fun h => (by rw [hl] at h; cases h), ?_⟩
+      intro pre sl hpre _
+      rw [hl] at hpre
+      cases pre with
+      | nil =>
+        simp only [List.nil_append, List.cons.injEq, and_true] at hpre
+        subst hpre
+        exact ⟨_, Descends.refl _, he⟩
+      | cons a t =>
+        simp only [List.cons_append, List.cons.injEq] at hpre
+        have := hpre.2
+        cases t <;> simp at this
+  · intro method url body headers retries s m' u' b' h' r' R' hstep ih
+    obtain ⟨hs, _, _, _, _, hinc⟩ := poolStep_next hstep
+    simp only [deriveRetry_retry] at ih
+    exact Surface.cons hinc ih [s] rfl
+
+theorem mgr_surface (W : World) (m : Mgr) (redirect : Bool) :
+    ∀ (fuel : Nat) (method url : Str) (kw : Kw),
+      Surface (mgrUrlopen W m fuel method url redirect kw) redirect
+        (deriveRetry kw.retries redirect .none) := by
+  apply mgr_induct W m redirect (fun _ _ kw R => Surface R redirect (deriveRetry kw.retries redirect .none))
+  · intro _ _ _
+    exact ⟨fun _ => ⟨by simp, by simp⟩, fun pre s hl => by simp at hl⟩
+  · intro method url kw R hR
+    rcases mgrStep_done_shape hR with ⟨hl, h1, h2, _⟩ | ⟨s, hp, hl, he⟩
+    · exact ⟨fun _ => ⟨h2, h1⟩, fun pre s hpre => by rw [hl] at hpre; simp at hpre⟩
+    · refine ⟨fun h => (by rw [hl] at h; cases h), ?_⟩
+      intro pre sl hpre _
+      rw [hl] at hpre
+      cases pre with
+      | nil =>
+        simp only [List.nil_append, List.cons.injEq, and_true] at hpre
+        subst hpre
+        exact ⟨_, Descends.refl _, he⟩
+      | cons a t =>
+        simp only [List.cons_append, List.cons.injEq] at hpre
+        have := hpre.2
+        cases t <;> simp at this
+  · intro method url kw log m' u' kw' R' hstep ih
+    obtain ⟨N⟩ := mgrStep_next hstep
+    rw [N.retries_eq] at ih
+    simp only [deriveRetry_retry] at ih
+    exact Surface.cons N.incr ih log N.log_eq
+
+end U3.Manager
+
+namespace U3.Manager
+open U3 U3.Headers U3.Retry
+
+/-! ## statements about `run` (one user call), ready for the property files -/
+
+theorem run_manager (W : World) (m : Mgr) (fuel : Nat) (req : Req) :
+    run W (.manager m) fuel req = mgrUrlopen W m fuel (requestWrap (.manager m) req).1 req.url
+      (req.redirect.getD true) ⟨req.body, (requestWrap (.manager m) req).2, req.retries⟩ := rfl
+
+theorem run_pool (W : World) (p : Pool) (fuel : Nat) (req : Req) :
+    run W (.pool p) fuel req = poolUrlopen W p fuel (requestWrap (.pool p) req).1 req.url req.body
+      (requestWrap (.pool p) req).2 req.retries (req.redirect.getD true) (req.assertSameHost.getD true) := rfl
+
+/-- the policy is *placed* where the code looks: per request, or on a bare pool, or nowhere -/
+def PlacementHonoured (c : Client) (req : Req) : Prop :=
+  req.retries ≠ .none ∨ (∃ p, c = .pool p) ∨ (∃ m, c = .manager m ∧ m.retries = .none)
+
+theorem effective_eq_supplied (c : Client) (req : Req) (h : PlacementHonoured c req) :
+    effective c req = supplied c req := by
+  cases c with
+  | pool p => rfl
+  | manager m =>
+    simp only [effective, supplied]
+    rcases h with h | ⟨p, hp⟩ | ⟨m', hm, hn⟩
+    · cases hr : req.retries with
+      | none => exact absurd hr h
+      | false => rfl
+      | int n => rfl
+      | retry r => rfl
+    · cases hp
+    · cases hm; rw [hn]
+
+/-- the only placement the code does not honour: the policy sits on the manager constructor alone -/
+theorem not_placementHonoured_iff (c : Client) (req : Req) :
+    ¬ PlacementHonoured c req ↔ ∃ m, c = .manager m ∧ req.retries = .none ∧ m.retries ≠ .none := by
+  constructor
+  · intro h
+    cases c with
+    | pool p => exact absurd (Or.inr (Or.inl ⟨p, rfl⟩)) h
+    | manager m =>
+      refine ⟨m, rfl, ?_, ?_⟩
+      · cases hr : req.retries with
+        | none => rfl
+        | false => exact absurd (Or.inl (by rw [hr]; intro h'; cases h')) h
+        | int n => exact absurd (Or.inl (by rw [hr]; intro h'; cases h')) h
+        | retry r => exact absurd (Or.inl (by rw [hr]; intro h'; cases h')) h
+      · intro hm
+        exact h (Or.inr (Or.inr ⟨m, rfl, hm⟩))
+  · rintro ⟨m, hc, hr, hm⟩ h
+    subst hc
+    rcases h with h | ⟨p, hp⟩ | ⟨m', hm', hn⟩
+    · exact h hr
+    · cases hp
+    · cases hm'; exact hm hn
+
+theorem run_surface (W : World) (c : Client) (fuel : Nat) (req : Req) :
+    Surface (run W c fuel req) (req.redirect.getD true) (effective c req) := by
+  cases c with
+  | manager m => rw [run_manager]; exact mgr_surface W m _ fuel _ _ _
+  | pool p => rw [run_pool]; exact pool_surface W p _ _ fuel _ _ _ _ _
+
+/-- the follow-up of a request, hop by hop (manager and pool level) -/
+def Hop (W : World) (c : Client) (a b : Sent) : Prop :=
+  a.reply.redirectLocation.isSome = true ∧
+  b.method = (rewrite303 a.reply.status a.method a.body (.dict [])).1 ∧
+  b.body = (rewrite303 a.reply.status a.method a.body (.dict [])).2.1 ∧
+  (match c with
+   | .pool _ => some b.url = a.reply.redirectLocation
+   | .manager _ => ∃ loc, a.reply.redirectLocation = some loc ∧ W.join a.url loc = some b.url)
+
+theorem rewrite303_hdr_irrel (st : Nat) (method : Str) (body : Option Bytes) (h h' : Hdrs) :
+    (rewrite303 st method body h).1 = (rewrite303 st method body h').1 ∧
+    (rewrite303 st method body h).2.1 = (rewrite303 st method body h').2.1 := by
+  unfold rewrite303; split <;> exact ⟨rfl, rfl⟩
+
+theorem run_hops (W : World) (c : Client) (fuel : Nat) (req : Req) :
+    Chain2 (Hop W c) (run W c fuel req).log := by
+  cases c with
+  | pool p =>
+    rw [run_pool]
+    apply pool_chain W p
+    intro a b h1 h2 h3 h4
+    exact ⟨h1, h2, h3, h4⟩
+  | manager m =>
+    rw [run_manager]
+    apply mgr_chain W m _ (fun _ _ _ => True) (Hop W (.manager m)) (fun _ _ => trivial)
+    · intro method url kw log m' u' kw' N b _ hb
+      obtain ⟨hu, hm, hbd⟩ := hb.facts
+      obtain ⟨_, hma, hba, _, _⟩ := poolAttempt_ok N.attempt
+      refine ⟨by rw [N.location]; rfl, ?_, ?_, N.loc, N.location, ?_⟩
+      · rw [hm]
+        refine N.method_eq.trans ?_
+        show _ = (rewrite303 N.s.reply.status N.s.method N.s.body _).1
+        rw [hma, hba]
+        exact (rewrite303_hdr_irrel _ _ _ _ _).1
+      · rw [hbd]
+        refine N.body_eq.trans ?_
+        show _ = (rewrite303 N.s.reply.status N.s.method N.s.body _).2.1
+        rw [hma, hba]
+        exact (rewrite303_hdr_irrel _ _ _ _ _).2
+      · rw [hu]; exact N.joined
+    · trivial
+
+/-- with redirects disabled (or no budget at all) one request goes out and its reply comes back -/
+theorem run_disabled (W : World) (c : Client) (fuel : Nat) (req : Req)
+    (h : req.redirect.getD true = false ∨
+      ((effective c req).redirect.budget = some 0 ∨ (effective c req).total.budget = some 0)) :
+    (run W c fuel req).log = [] ∨
+    ∃ s, (run W c fuel req).log = [s] ∧ s.url = req.url ∧
+      EndsWith (run W c fuel req) s (req.redirect.getD true) (effective c req) := by
+  cases c with
+  | pool p =>
+    rw [run_pool]
+    rcases pool_disabled W p fuel (requestWrap (.pool p) req).1 req.url req.body
+      (requestWrap (.pool p) req).2 req.retries (req.redirect.getD true) (req.assertSameHost.getD true) h
+      with h' | ⟨s, hl, hu, _, _, he⟩
+    · exact Or.inl h'
+    · exact Or.inr ⟨s, hl, hu, he⟩
+  | manager m =>
+    rw [run_manager]
+    rcases mgr_disabled W m fuel (requestWrap (.manager m) req).1 req.url (req.redirect.getD true)
+      ⟨req.body, (requestWrap (.manager m) req).2, req.retries⟩ h with h' | ⟨s, hl, hp, he⟩
+    · exact Or.inl h'
+    · exact Or.inr ⟨s, hl, hp.facts.1, he⟩
+
+/-- where the request of a manager pass goes (no proxy): the pool `connection_from_host` makes for the
+parsed URL, with the request target of its `request_uri` -/
+theorem MgrPass.noproxy {W : World} {m : Mgr} {method url : Str} {kw : Kw} {s : Sent}
+    (h : MgrPass W m method url kw s) (hp : m.proxy = none) :
+    ∃ u conn pu, W.parse s.url = some u ∧ connectionFromHost m u.host u.port u.scheme = .ok conn ∧
+      W.parse u.requestUri = some pu ∧ s.dest = conn.id.origin ∧ s.dial = conn.id.origin ∧
+      s.tunnel = false ∧ s.target = pu.target ∧ s.reply = W.serve conn.id.origin method pu.target := by
+  obtain ⟨u, conn, s0, r0, hs, hu, hconn, hpa, hs0⟩ := h
+  have hcp : conn.proxy = none := by
+    unfold connectionFromHost at hconn
+    rw [hp] at hconn
+    simp only at hconn
+    unfold pmConnectionFromHost at hconn
+    split at hconn
+    · cases hconn
+    · dsimp only at hconn
+      repeat' split at hconn
+      all_goals first | (injection hconn with hconn; rw [← hconn]; exact hp) | cases hconn
+  have htgt : mgrTarget m u url = u.requestUri := by simp [mgrTarget, hp]
+  rw [htgt] at hpa
+  obtain ⟨pu, hpu, _, ht, _, hx⟩ := poolAttempt_ok' hpa
+  obtain ⟨h1, h2, h3, h4⟩ := hx hcp
+  subst hs0
+  exact ⟨u, conn, pu, hu, hconn, hpu, h1, h2, h3, ht, h4⟩
+
+end U3.Manager
+
+namespace U3.Manager
+open U3 U3.Headers U3.Retry
+
+/-! ## the policies of the property's quantifier have sane counters -/
+
+theorem sane_of_none (r : Retry)
+    (h : r.connect = .none ∧ r.read = .none ∧ r.status = .none ∧ r.other = .none) : SaneCounters r := by
+  intro n hn
+  obtain ⟨h1, h2, h3, h4⟩ := h
+  rw [h1, h2, h3, h4] at hn
+  rcases hn with h | h | h | h <;> cases h
+
+/-- `Retry(total, redirect=…)`: the other counters keep their default `None` -/
+theorem sane_ofTotal (t rd : Count) : SaneCounters (Retry.ofTotal t rd) := by
+  apply sane_of_none
+  unfold Retry.ofTotal Retry.init
+  dsimp only
+  split <;> exact ⟨rfl, rfl, rfl, rfl⟩
+
+theorem fromInt_none_false (redirect : Bool) :
+    Retry.fromInt .none redirect .false = Retry.fromInt .false redirect .none := by
+  cases redirect <;> rfl
+
+theorem fromInt_none_retry (redirect : Bool) (r : Retry) : Retry.fromInt .none redirect (.retry r) = r := by
+  cases redirect <;> rfl
+
+/-- `None`, `False` and integers (per request or as a default) give sane counters -/
+theorem sane_fromInt (a d : Arg) (redirect : Bool) (ha : ∀ r, a ≠ .retry r)
+    (hd : a = .none → ∀ r, d = .retry r → SaneCounters r) : SaneCounters (Retry.fromInt a redirect d) := by
+  cases a with
+  | retry r => exact absurd rfl (ha r)
+  | false => cases redirect <;> exact sane_ofTotal _ _
+  | int n => cases redirect <;> exact sane_ofTotal _ _
+  | none =>
+    cases d with
+    | none => cases redirect <;> exact sane_ofTotal _ _
+    | false => cases redirect <;> exact sane_ofTotal _ _
+    | int n => cases redirect <;> exact sane_ofTotal _ _
+    | retry r => rw [fromInt_none_retry]; exact hd rfl r rfl
+
+end U3.Manager
